@@ -173,6 +173,84 @@ main(int argc, char** argv)
     printf("%u %u %u\n", (unsigned)ZIX_BTREE_LEAF_VALS, (unsigned)ZIX_BTREE_INODE_VALS, (unsigned)ZIX_BTREE_MAX_HEIGHT);
     return 0;
   }
+  if (argc > 4 && !strcmp(argv[1], "--selftest")) {
+    // --selftest <seed> <nops> <keyspace>: random insert / remove / find / iteration against a sorted-array oracle kept
+    // here; used for page geometries the Lean model's theorems exclude (they must be rejected by the sources; if they are
+    // accepted this finds the failing history).  On the first mismatch the history so far is printed as protocol lines.
+    unsigned seed = (unsigned)atoi(argv[2]);
+    const int nops = atoi(argv[3]), keyspace = atoi(argv[4]);
+    static long present[1 << 16];
+    static char hist[1 << 22];
+    size_t hl = 0;
+    int np = 0;
+    v_alloc_init(&va);
+    va.logging = false;
+    alarm(60);
+    tree = zix_btree_new(&va.base, cmp, &cmp_tag);
+    hl += (size_t)snprintf(hist + hl, sizeof(hist) - hl, "new %u %u %u\n", (unsigned)ZIX_BTREE_LEAF_VALS, (unsigned)ZIX_BTREE_INODE_VALS, (unsigned)ZIX_BTREE_MAX_HEIGHT);
+    for (int i = 0; i < nops; ++i) {
+      const int r = rand_r(&seed) % 100;
+      const long k = 1 + rand_r(&seed) % keyspace;
+      int pos = -1;
+      for (int j = 0; j < np; ++j) if (present[j] == k) pos = j;
+      const char* bad = NULL;
+      if (r < 50) {
+        hl += (size_t)snprintf(hist + hl, sizeof(hist) - hl, "ins %ld\n", k);
+        const ZixStatus st = zix_btree_insert(tree, PTR((uintptr_t)k));
+        if (st != (pos >= 0 ? ZIX_STATUS_EXISTS : ZIX_STATUS_SUCCESS)) bad = "insert status";
+        if (pos < 0 && np < (1 << 16)) present[np++] = k;
+      } else if (r < 85) {
+        hl += (size_t)snprintf(hist + hl, sizeof(hist) - hl, "rm %ld\n", k);
+        void* out = NULL;
+        ZixBTreeIter next = zix_btree_end_iter;
+        const ZixStatus st = zix_btree_remove(tree, PTR((uintptr_t)k), &out, &next);
+        if (st != (pos >= 0 ? ZIX_STATUS_SUCCESS : ZIX_STATUS_NOT_FOUND)) bad = "remove status";
+        else if (pos >= 0 && VAL(out) != (uintptr_t)k) bad = "removed element";
+        if (pos >= 0) present[pos] = present[--np];
+      } else {
+        hl += (size_t)snprintf(hist + hl, sizeof(hist) - hl, "find %ld\n", k);
+        ZixBTreeIter it = zix_btree_end_iter;
+        const ZixStatus st = zix_btree_find(tree, PTR((uintptr_t)k), &it);
+        if (st != (pos >= 0 ? ZIX_STATUS_SUCCESS : ZIX_STATUS_NOT_FOUND)) bad = "find status";
+        else if (pos >= 0 && VAL(zix_btree_get(it)) != (uintptr_t)k) bad = "found element";
+      }
+      if (!bad && zix_btree_size(tree) != (size_t)np) bad = "size";
+      if (!bad && (i % 7 == 0 || i == nops - 1)) {
+        // iteration: exactly the oracle's elements, strictly ascending
+        qsort(present, (size_t)np, sizeof(long), cmp_long);
+        int j = 0;
+        for (ZixBTreeIter it = zix_btree_begin(tree); !zix_btree_iter_is_end(it) && !bad; zix_btree_iter_increment(&it), ++j) {
+          if (j >= np || VAL(zix_btree_get(it)) != (uintptr_t)present[j]) bad = "iteration";
+        }
+        if (!bad && j != np) bad = "iteration length";
+      }
+      if (bad || hl > sizeof(hist) - 64) {
+        if (bad) { printf("SELFTEST-FAIL %s after %d operations\n%swalk\n", bad, i + 1, hist); return 1; }
+        break;
+      }
+    }
+    puts("SELFTEST-OK");
+    return 0;
+  }
+  if (argc > 2 && !strcmp(argv[1], "--bigleaf")) {
+    // --bigleaf <n>: n ascending inserts (they all land in one leaf when a leaf holds that many), then every element must be
+    // found at an iterator that dereferences to it (positions beyond 65535 need more than the iterator's 16-bit indexes)
+    const long n = atol(argv[2]);
+    v_alloc_init(&va);
+    va.logging = false;
+    alarm(120);
+    tree = zix_btree_new(&va.base, cmp, &cmp_tag);
+    for (long k = 1; k <= n; ++k) zix_btree_insert(tree, PTR((uintptr_t)k));
+    for (long k = n; k >= 1; k -= 97) {
+      ZixBTreeIter it = zix_btree_end_iter;
+      if (zix_btree_find(tree, PTR((uintptr_t)k), &it) || VAL(zix_btree_get(it)) != (uintptr_t)k) {
+        printf("BIGLEAF-FAIL find %ld after %ld ascending inserts yields an iterator at %lu\n", k, n, (unsigned long)VAL(zix_btree_get(it)));
+        return 1;
+      }
+    }
+    puts("BIGLEAF-OK");
+    return 0;
+  }
   FILE* in = argc > 1 ? fopen(argv[1], "r") : stdin;
   char* tok[V_MAX_TOK];
   int   n = 0;
